@@ -825,26 +825,31 @@ func BackwardSlice(v ssa.Value, o SliceOpts) map[ssa.Value]bool {
 		case *ssa.Alloc:
 			if o.Stores {
 				// composite literals and variadic argument arrays: what is stored into the cell or its elements
-				for _, ref := range *x.Referrers() {
-					switch a := ref.(type) {
-					case *ssa.Store:
-						if a.Addr == ssa.Value(x) {
-							visit(a.Val)
-						}
-					case *ssa.IndexAddr:
-						for _, r2 := range *a.Referrers() {
-							if st, ok := r2.(*ssa.Store); ok && st.Addr == ssa.Value(a) {
-								visit(st.Val)
+				// stores into the cell, its elements and fields (nested: an array of structs built by a literal)
+				var stores func(addr ssa.Value, depth int)
+				stores = func(addr ssa.Value, depth int) {
+					refs := addr.Referrers()
+					if refs == nil || depth > 3 {
+						return
+					}
+					for _, ref := range *refs {
+						switch a := ref.(type) {
+						case *ssa.Store:
+							if a.Addr == addr {
+								visit(a.Val)
 							}
-						}
-					case *ssa.FieldAddr:
-						for _, r2 := range *a.Referrers() {
-							if st, ok := r2.(*ssa.Store); ok && st.Addr == ssa.Value(a) {
-								visit(st.Val)
+						case *ssa.IndexAddr:
+							if a.X == addr {
+								stores(a, depth+1)
+							}
+						case *ssa.FieldAddr:
+							if a.X == addr {
+								stores(a, depth+1)
 							}
 						}
 					}
 				}
+				stores(x, 0)
 			}
 			return
 		case *ssa.Call:
